@@ -21,6 +21,8 @@ else:
     subprocess.check_call(["rsync", "-a", "--exclude", "target", "--exclude", ".git", "/repo/", tree + "/"])
     subprocess.check_call(["git", "init", "-q"], cwd=tree)
     env["VERIF_REPO"] = tree
+    env["VERIF_EVIDENCE_DIR"] = tree + "/.verif/evidence"
+    env["VERIF_BUILD_DIR"] = tree + "/.verif/build"
 r = subprocess.run(["git", "apply", patch], cwd=tree, stdout=subprocess.PIPE, stderr=subprocess.STDOUT)
 if r.returncode != 0:
     print("PATCH DOES NOT APPLY:", r.stdout.decode()[:500])
